@@ -148,6 +148,14 @@ func c04UnitSteps(c *Ctx, r *RuleResult, lexT *types.Named) {
 				reads = append(reads, readT{v, in})
 			}
 		})
+		// a byte parameter that every caller fills with the byte it has just read at the cursor is a read at entry
+		if fn.Parent() == nil && len(fn.Blocks) > 0 && len(fn.Blocks[0].Instrs) > 0 {
+			for _, prm := range fn.Params {
+				if isByteVal(prm) && c04ParamIsCursorByte(p, fn, prm, lexT) {
+					reads = append(reads, readT{prm, fn.Blocks[0].Instrs[0]})
+				}
+			}
+		}
 		headers, bodies := loopsOf(fn)
 		if isStepper(p, fn, lexT) && stepperDelta(fn, lexT) != nil {
 			// the helper itself: its call sites carry the obligation
@@ -420,4 +428,72 @@ func c04EntryByteAscii(p *Program, fn *ssa.Function, b *ssa.BasicBlock, lexT *ty
 		}
 	}
 	return fmt.Sprintf("the byte at the cursor on entry is below 0x80 at each of the %d call site(s), and nothing moves the cursor before this step", len(calls))
+}
+
+// c04ParamIsCursorByte: at every call site of fn in the lexer the argument for prm is the value read from Input[end]
+// with no movement of the cursor between the read and the call.
+func c04ParamIsCursorByte(p *Program, fn *ssa.Function, prm *ssa.Parameter, lexT *types.Named) bool {
+	idx := paramIndex(fn, prm)
+	calls := callsTo(p.FuncsIn("lexer"), fn)
+	if idx < 0 || len(calls) == 0 {
+		return false
+	}
+	for _, ci := range calls {
+		if idx >= len(ci.Common().Args) {
+			return false
+		}
+		arg := stripChange(ci.Common().Args[idx])
+		var rdIn ssa.Instruction
+		allInstrs(ci.Parent(), func(in ssa.Instruction) {
+			ix, v, ok := strIndex(in)
+			if ok && stripChange(v) == arg && isFieldLoad(stripChange(ix), lexT, "end") {
+				rdIn = in
+			}
+		})
+		if rdIn == nil || !dominatesInstr(rdIn, ci) {
+			return false
+		}
+		// the cursor does not move between the read and the call
+		rb, cb := rdIn.Block(), ci.Block()
+		moved := false
+		for _, x := range ci.Parent().Blocks {
+			for _, in := range x.Instrs {
+				st, ok := in.(*ssa.Store)
+				if !ok {
+					continue
+				}
+				fa, ok := st.Addr.(*ssa.FieldAddr)
+				if !ok {
+					continue
+				}
+				if n, f, _, _ := fieldOf(fa); n == nil || !sameNamed(n, lexT) || f != "end" {
+					continue
+				}
+				switch {
+				case x == rb && x == cb:
+					if instrIndex(in) > instrIndex(rdIn) && instrIndex(in) < instrIndex(ci) {
+						moved = true
+					}
+				case x == cb:
+					if instrIndex(in) < instrIndex(ci) {
+						moved = true
+					}
+				case x == rb:
+					if instrIndex(in) > instrIndex(rdIn) && reachAvoiding(x, nil, nil)[cb] {
+						// later in the read's block, then on to the call without re-reading: only if the call is not
+						// dominated through the loop head again
+						moved = moved || !cb.Dominates(x)
+					}
+				default:
+					if reachAvoiding(rb, nil, nil)[x] && reachAvoiding(x, func(y *ssa.BasicBlock) bool { return y == rb }, nil)[cb] {
+						moved = true
+					}
+				}
+			}
+		}
+		if moved {
+			return false
+		}
+	}
+	return true
 }
